@@ -578,7 +578,8 @@ func TestC10(t *testing.T) {
 		Level: "exploration",
 		Rule: "cases = (backend, operation sequence with hostile keys); enumeration: every key of a hostile pool (dot segments, bucket-escaping paths, backslashes, percent-encoded bytes, 255/256-byte segments, internal names, path-prefixes of live keys, look-alikes) " +
 			"x every op kind {put, get, head, delete, multi-delete, copy to, copy from, multipart complete, form POST, list with prefix, Backend put/get/delete} x both buckets x every backend; random: rapid programs mixing hostile and normal keys; " +
-			"oracle = full-store snapshot (ListBuckets, Backend.ListBucket of every bucket, GET of every known key, on-disk tree with sentinel files for real directories) before and after each op: only the addressed (bucket,key) may differ; " +
+			"plus hostile bucket names (over HTTP, and names only the Go API can carry: with a slash, climbing) x object ops and bucket create / delete / forced delete through the Backend API; sibling keys spelled like temporary or backup files; keys spelled like a backend's scratch files across a new backend instance (persistent kinds); " +
+			"oracle = full-store snapshot (ListBuckets, Backend.ListBucket of every bucket with and without delimiter, GET of every known key, on-disk tree with sentinel files for real directories) before and after each op: only the addressed (bucket,key) may differ; " +
 			"plus byte-distinct look-alike pairs on mem/bolt and probes of the backends' internal names; " +
 			"plus multipart sequences (initiate, upload part, abort, complete, list parts over two buckets x two keys) in which requests quote the upload ID issued for another (bucket, key), against a model of every pending upload, the upload listings and the objects; " +
 			"non-trivial = an op with a hostile key that the backend accepted, or a mutating op while both buckets hold objects, or a multipart request quoting the ID of a pending upload of another (bucket, key); distinct by (backend, sequence)",
